@@ -41,6 +41,80 @@ func checkC18(c *Ctx) {
 		c.Unresolved("C18.1", "twins", "anchor missing")
 		return
 	}
+	// C18.12 every combination kept in a list owns its storage: where the generator's enumeration helpers keep the result of an
+	// append as an element of a list of combinations, and the same base slice is extended more than once (the append sits in a
+	// loop that does not redefine the base), the base must be a fresh allocation; otherwise combinations extending one
+	// prefix share an array and all show the last extension (repeated scenarios, others never generated)
+	{
+		nEl := 0
+		var bad []string
+		for _, hf := range helperClosure(p, ng, 4) {
+			if funcPkgPath(hf) != modPath+"/twins" {
+				continue
+			}
+			closure := []*ssa.Function{hf}
+			eachInstr(hf, func(in ssa.Instruction) {
+				call, isCall := in.(*ssa.Call)
+				if !isCall {
+					return
+				}
+				b, isB := call.Call.Value.(*ssa.Builtin)
+				if !isB || b.Name() != "append" || len(call.Call.Args) != 2 {
+					return
+				}
+				st, isSlice := call.Type().Underlying().(*types.Slice)
+				if !isSlice {
+					return
+				}
+				if _, elemIsSlice := st.Elem().Underlying().(*types.Slice); !elemIsSlice {
+					return
+				}
+				storedInto(sliceBase(call.Call.Args[1]), func(e ssa.Value) bool {
+					inner, ok := e.(*ssa.Call)
+					if !ok {
+						return true
+					}
+					ib, ok := inner.Call.Value.(*ssa.Builtin)
+					if !ok || ib.Name() != "append" {
+						return true
+					}
+					nEl++
+					base := inner.Call.Args[0]
+					why := notFreshSlice(base, hf, hf, closure, map[ssa.Value]bool{}, 0)
+					if why == "" {
+						return true
+					}
+					// is the same base extended repeatedly? (a cycle through the append that avoids the base's definition)
+					var defBlock *ssa.BasicBlock
+					if bi, ok := base.(ssa.Instruction); ok {
+						defBlock = bi.Block()
+					}
+					repeated := false
+					seenB := map[*ssa.BasicBlock]bool{}
+					work := append([]*ssa.BasicBlock{}, inner.Block().Succs...)
+					for len(work) > 0 {
+						bb := work[len(work)-1]
+						work = work[:len(work)-1]
+						if seenB[bb] || bb == defBlock {
+							continue
+						}
+						seenB[bb] = true
+						if bb == inner.Block() {
+							repeated = true
+							break
+						}
+						work = append(work, bb.Succs...)
+					}
+					if repeated {
+						bad = append(bad, p.InstrPos(inner)+" in "+shortName(hf)+": extends "+why+" once per iteration")
+					}
+					return true
+				})
+			})
+		}
+		c.Check(len(bad) == 0, "C18.12", "enumeration helpers: every combination kept in a list owns its storage", p.FuncPos(gps),
+			itoa(nEl)+" appended combinations examined: none extends a shared slice repeatedly", join(bad)+": combinations that extend the same prefix share one backing array, so all of them end with the last extension (scenarios repeat and others are never generated)")
+	}
 	// C18.1 determinism
 	for _, fn := range []*ssa.Function{ng, gps, gen, sh} {
 		es := p.scanEffects(fn, loggerCut)
